@@ -34,47 +34,49 @@ type OnReturn struct {
 }
 
 type Contract struct {
-	Kind       string // func | extern | field | iface
-	Target     string
-	Key        string // Type.Method or Func
-	PkgName    string
-	PkgPath    string
-	Props      []string
-	Params     []string
-	Results    []string
-	Recv       string
-	Requires   []Clause
-	Ensures    []Clause
-	Modifies   []ast.Expr
-	HasMod     bool              // a modifies clause is present (possibly "modifies nothing")
-	Allocs     bool              // the function may allocate objects visible to the caller
-	AllocT     []string          // ... of these kinds (struct short names, "map", "chan", "cell")
-	SpawnMod   []ast.Expr        // what goroutines started by this function may modify (default: nothing)
-	Observe    map[string]string // obligation-name suffix -> why a failure of it is outside the property (reported, not alarmed)
-	Devirt     map[string]string
-	Dispatch   map[string][]string // closed-world dispatch: interface name -> the implementing types considered
-	ModText    []string
-	LoopInvs   map[int][]Clause
-	LoopHints  map[int][]Clause
-	LoopDo     map[int][]GhostAssign
-	LoopMods   map[int][]ast.Expr       // loop N modifies ...: what one iteration may change on the heap (default: syntactic effects)
-	OnCall     map[string][]GhostAssign // "<callee name>:<ordinal>:before|after" -> ghost assignments at that call site
-	SelAsserts map[string][]Clause      // "N:default" / "N:K" -> assertions at the start of that branch of the N-th select statement
-	OnRet      []OnReturn
-	OnEntry    []GhostAssign
-	Inst       map[string]string
-	SMTStr     bool
-	Inline     bool
-	Mode       string // seq | conc | both
-	Decr       *Clause
-	NoSafety   bool
-	Safety     map[string]bool
-	File       string
-	Line       int
-	Trusted    bool
-	Pure       bool
-	Assumes    []string // free-text assumptions carried into the evidence
-	Replay     string
+	Kind        string // func | extern | field | iface
+	Target      string
+	Key         string // Type.Method or Func
+	PkgName     string
+	PkgPath     string
+	Props       []string
+	Params      []string
+	Results     []string
+	Recv        string
+	Requires    []Clause
+	Ensures     []Clause
+	Modifies    []ast.Expr
+	HasMod      bool              // a modifies clause is present (possibly "modifies nothing")
+	Allocs      bool              // the function may allocate objects visible to the caller
+	AllocT      []string          // ... of these kinds (struct short names, "map", "chan", "cell")
+	SpawnMod    []ast.Expr        // what goroutines started by this function may modify (default: nothing)
+	Observe     map[string]string // obligation-name suffix -> why a failure of it is outside the property (reported, not alarmed)
+	Devirt      map[string]string
+	Dispatch    map[string][]string // closed-world dispatch: interface name -> the implementing types considered
+	ModText     []string
+	LoopInvs    map[int][]Clause
+	Opaque      []string
+	GhostLocals []string
+	LoopHints   map[int][]Clause
+	LoopDo      map[int][]GhostAssign
+	LoopMods    map[int][]ast.Expr       // loop N modifies ...: what one iteration may change on the heap (default: syntactic effects)
+	OnCall      map[string][]GhostAssign // "<callee name>:<ordinal>:before|after" -> ghost assignments at that call site
+	SelAsserts  map[string][]Clause      // "N:default" / "N:K" -> assertions at the start of that branch of the N-th select statement
+	OnRet       []OnReturn
+	OnEntry     []GhostAssign
+	Inst        map[string]string
+	SMTStr      bool
+	Inline      bool
+	Mode        string // seq | conc | both
+	Decr        *Clause
+	NoSafety    bool
+	Safety      map[string]bool
+	File        string
+	Line        int
+	Trusted     bool
+	Pure        bool
+	Assumes     []string // free-text assumptions carried into the evidence
+	Replay      string
 }
 
 type GhostField struct {
@@ -99,6 +101,7 @@ type GhostFunc struct {
 	Body    ast.Expr
 	BodyS   string
 	PkgPath string
+	Spec    bool // defined by an axiom instead of expanded
 	// resolved
 	PT  []*Type
 	Ret *Type
@@ -153,7 +156,7 @@ var declKeywords = map[string]bool{"func": true, "extern": true, "field": true, 
 	"ghost": true, "axiom": true, "monitor": true, "lemma": true, "devirtall": true}
 var clauseKeywords = map[string]bool{"prop": true, "params": true, "results": true, "recv": true, "requires": true, "ensures": true,
 	"modifies": true, "loop": true, "on": true, "instantiate": true, "strings": true, "inline": true, "mode": true, "decreases": true,
-	"safety": true, "invariant": true, "protects": true, "self": true, "vars": true, "assumes": true, "replay": true, "allocates": true, "devirt": true, "dispatch": true, "spawn": true, "rely": true, "observation": true, "select": true}
+	"safety": true, "invariant": true, "protects": true, "self": true, "vars": true, "assumes": true, "replay": true, "allocates": true, "opaque": true, "ghostlocal": true, "devirt": true, "dispatch": true, "spawn": true, "rely": true, "observation": true, "select": true}
 
 // desugarSpec rewrites ==> and <==> (lowest precedence, right associative) into calls.
 func desugarSpec(s string) string {
@@ -448,12 +451,19 @@ func parseContractFile(path, pkgPath, pkgName string) (*ContractFile, error) {
 				cf.GhostFields = append(cf.GhostFields, &GhostField{Struct: pkgPath + "." + f[1][:dot], Name: f[1][dot+1:], TypeS: strings.Join(f[2:], " ")})
 			case "var":
 				cf.GhostVars = append(cf.GhostVars, &GhostVar{Name: f[1], TypeS: strings.Join(f[2:], " "), Pkg: pkgPath})
-			case "func":
-				gf, err := parseGhostFunc(strings.TrimSpace(rest[len("func"):]), path, rl.line)
+			case "func", "spec":
+				// ghost func: a macro, expanded where it is used. ghost spec: a spec function, a function symbol of
+				// its arguments and of the heap it reads, defined by an axiom (equal arguments give equal values by
+				// congruence, even when the body is a quantified formula)
+				gf, err := parseGhostFunc(strings.TrimSpace(rest[len(f[0]):]), path, rl.line)
 				if err != nil {
 					return nil, err
 				}
 				gf.PkgPath = pkgPath
+				gf.Spec = f[0] == "spec"
+				if gf.Spec && gf.Body == nil {
+					return nil, fmt.Errorf("%s:%d: ghost spec needs a body", path, rl.line)
+				}
 				cf.GhostFuncs = append(cf.GhostFuncs, gf)
 			default:
 				return nil, fmt.Errorf("%s:%d: bad ghost decl kind %s", path, rl.line, f[0])
@@ -756,6 +766,18 @@ func parseContractFile(path, pkgPath, pkgName string) (*ContractFile, error) {
 					cur.Observe = map[string]string{}
 				}
 				cur.Observe[strings.TrimSpace(parts[0])] = strings.TrimSpace(parts[1])
+			case "ghostlocal":
+				// ghostlocal name type: a ghost variable local to one activation of this function (callers, and the
+				// function's own recursive calls, never see it change; it is not part of the frame)
+				f := strings.Fields(rest)
+				if len(f) < 2 {
+					return nil, fmt.Errorf("%s:%d: ghostlocal name type", path, rl.line)
+				}
+				cf.GhostVars = append(cf.GhostVars, &GhostVar{Name: f[0], TypeS: strings.Join(f[1:], " "), Pkg: pkgPath})
+				cur.GhostLocals = append(cur.GhostLocals, f[0])
+			case "opaque":
+				// opaque f, g: the definitions of these spec functions are not used by this function's proofs
+				cur.Opaque = append(cur.Opaque, fieldsComma(rest)...)
 			case "allocates":
 				cur.Allocs = true
 				cur.AllocT = append(cur.AllocT, fieldsComma(rest)...)
@@ -862,4 +884,13 @@ func parseGhostFunc(s, path string, line int) (*GhostFunc, error) {
 		gf.BodyS = m[4]
 	}
 	return gf, nil
+}
+
+func (c *Contract) isGhostLocal(name string) bool {
+	for _, g := range c.GhostLocals {
+		if g == name {
+			return true
+		}
+	}
+	return false
 }
